@@ -124,3 +124,18 @@ prop(
     explanation="exponential_backoff yields 0 then factor*2^n (n-th loop value); retry loop invariant retries_left + pauses == retries with the k-th pause the k-th backoff value (0, 0.5, 1, 2 ... by ground instances), gives up exactly when retries are exhausted re-raising the last error, loops only after ConnectError/ConnectTimeout, any other failure leaves at once with no further backend call; _connect runs only under the request lock with no connection set",
     trusted=[A_NET, A_SYNC],
 )
+
+prop(
+    "C07",
+    title="waiting requests make progress whenever capacity exists",
+    explanation="safety core of the statement: the assignment pass scans every queued request in arrival order (no early exit), leaves a request queued only when nothing is available, the pool is at its limit and nothing idle can be evicted; the pass is re-run (under the pool lock) on every arrival, on every exceptional exit of handle_request and on every response close (shielded); a request waits only after a pass, outside the pool lock, on its own event, and only while unassigned; assign_to_connection publishes the connection before setting the event and wait_for_connection tests it before waiting (no lost wake-up); the retry on ConnectionNotAvailable clears the assignment first",
+    trusted=[A_NET, A_IFACE, A_SHIELD, A_SYNC, "A-runtime: Event.set before Event.wait is not lost; wait returns only when the flag is set or raises PoolTimeout"],
+    not_decided=["the liveness sentence ('no schedule leaves a caller blocked for ever') is a paper corollary of the safety obligations under fairness and a responsive server: not machine-checked"],
+)
+prop(
+    "C08",
+    title="the synchronous pool is thread-safe",
+    explanation="lock-discipline obligations on the sync tree (and the async twin): every mutation of the pool's request queue and connection list, every assignment pass, and the pool reset in close() happen while the pool's thread lock is held; waiting, sending and closing happen outside it; connection state transitions (HTTP/1.1 gate and _response_closed, connect/tunnel/SOCKS establishment state) are written under their own lock; assign_to_connection/wait_for_connection hand-off order; list.remove calls are proved not to raise ValueError given the lock discipline",
+    trusted=[A_NET, A_IFACE, A_SYNC, "GIL: single bytecodes are atomic; preemption inside h11/h2/threading internals not modelled"],
+    not_decided=["interleavings between lock regions are not enumerated: the obligations are the guarded_by discipline plus per-region contracts, not a schedule exploration", "HTTP/2 state machine shared by threads without a common lock (recorded finding when the HTTP/2 contracts flag it)"],
+)
